@@ -314,6 +314,10 @@ func checkC16(c *ctx) {
 		c.Violation("C16 search results must not depend on earlier searches of the same segment\n"+bad, false)
 		return
 	}
+	if bad := expiryRace(c); bad != "" {
+		c.Violation("C16 "+bad, false)
+		return
+	}
 	if bad := inPlaceBitmapHistory(c); bad != "" {
 		c.Violation("C16 "+bad, false)
 		return
